@@ -3633,6 +3633,387 @@ def r1b(ctx, repo):
 
 
 # ----------------------------------------------------------------------
+# R1.C the store_* methods leave the caller's arguments unchanged
+
+_INF = 10 ** 6
+#: methods that change the container they are called on
+_MUTATORS = {"pop", "popitem", "setdefault", "update", "clear", "append",
+             "extend", "insert", "remove", "sort", "reverse", "add",
+             "discard", "fill", "resize", "put", "itemset", "setflags",
+             "byteswap", "partition"}
+#: element access: the result is one level below the receiver
+_ELEMENT = {"get", "setdefault", "pop", "popitem"}
+#: views on the receiver (iteration yields its elements)
+_VIEWS = {"items", "values", "keys"}
+#: shallow copies: a new top level over shared elements
+_SHALLOW_FUNCS = {"copy.copy", "dict", "list", "set", "sorted", "reversed",
+                  "collections.OrderedDict", "OrderedDict"}
+#: the same object (or a view of it) may come back
+_ALIAS_FUNCS = {"np.asarray", "np.asanyarray", "np.ascontiguousarray",
+                "np.atleast_1d", "np.atleast_2d", "np.squeeze", "np.ravel",
+                "np.reshape", "np.transpose",
+                "numpy.asarray", "numpy.asanyarray", "iter", "enumerate",
+                "zip", "filter", "itertools.chain", "chain"}
+_ALIAS_METHODS = {"reshape", "ravel", "squeeze", "view", "transpose",
+                  "swapaxes", "__iter__"}
+_DEEP_FUNCS = {"copy.deepcopy", "deepcopy", "np.array", "np.copy",
+               "numpy.array", "numpy.copy", "json.loads"}
+
+
+class _Ownership:
+    """How many container levels of a value belong to the function: None –
+    the value is not reached from a data parameter, 0 – it is (part of) the
+    caller's object, k – the k outer levels are private copies, _INF – a
+    deep copy.  Names are resolved through their reaching definitions."""
+
+    def __init__(self, func, data_params):
+        self.f = func
+        self.params = set(data_params)
+        self.cfg = CFG(func)
+        self.defs = {}
+        for n in walk(func):
+            tg = []
+            if isinstance(n, ast.Assign):
+                tg = [(t, n.value, "is") for t in n.targets]
+            elif isinstance(n, ast.AnnAssign) and n.value is not None:
+                tg = [(n.target, n.value, "is")]
+            elif isinstance(n, ast.AugAssign):
+                tg = [(n.target, n, "aug")]
+            elif isinstance(n, ast.For):
+                tg = [(n.target, n.iter, "elem")]
+            elif isinstance(n, ast.With):
+                tg = [(i.optional_vars, i.context_expr, "other")
+                      for i in n.items if i.optional_vars is not None]
+            elif isinstance(n, ast.NamedExpr):
+                tg = [(n.target, n.value, "is")]
+            for t, v, how in tg:
+                if isinstance(t, ast.Name):
+                    self.defs.setdefault(t.id, []).append((n, v, how))
+                elif isinstance(t, (ast.Tuple, ast.List)):
+                    for e in ast.walk(t):
+                        if isinstance(e, ast.Name):
+                            self.defs.setdefault(e.id, []).append(
+                                (n, v, "elem" if how == "elem" else "part"))
+        self.busy = set()
+        #: names bound by imports (calls through them are functions)
+        self.modules = set()
+        root = func
+        while getattr(root, "parent", None) is not None:
+            root = root.parent
+        for n in ast.walk(root):
+            if isinstance(n, (ast.Import, ast.ImportFrom)):
+                for a in n.names:
+                    self.modules.add((a.asname or a.name).split(".")[0])
+
+    def _stmt_ids(self, node):
+        cur = node
+        while cur is not None and cur is not self.f:
+            ids = self.cfg.ids_of(cur)
+            if ids:
+                return set(ids)
+            cur = getattr(cur, "parent", None)
+        raise AnalysisError(f"{self.f.name}: `{short(node, 30)}` is not in "
+                            f"the control-flow graph")
+
+    def _def_stmt(self, n):
+        """the statement node of a definition (a walrus sits inside one)"""
+        cur = n
+        while cur is not None and not self.cfg.ids_of(cur):
+            cur = getattr(cur, "parent", None)
+        return cur
+
+    def reaching(self, name, site):
+        """definitions of `name` that reach the statement of `site`;
+        the entry `None` stands for the parameter binding"""
+        here = self._stmt_ids(site)
+        dl = self.defs.get(name, [])
+        def_ids = {}
+        for d in dl:
+            st = self._def_stmt(d[0])
+            for i in self.cfg.ids_of(st) if st is not None else []:
+                def_ids.setdefault(i, []).append(d)
+        kills = set(def_ids)
+
+        def avoid(N):
+            return N.id in kills and N.id not in here
+        out = []
+        r = self.cfg.reach([self.cfg.entry], avoid_node=avoid,
+                           include_sources=True)
+        if r & here:
+            out.append(None)
+        for i, ds in def_ids.items():
+            r = self.cfg.reach([i], avoid_node=avoid)
+            if r & here:
+                for d in ds:
+                    if all(d is not o for o in out):
+                        out.append(d)
+        return out
+
+    # -- expressions
+    def _comp_binding(self, name_node):
+        """generator of an enclosing comprehension that binds the name"""
+        for a in ancestors(name_node):
+            if a is self.f:
+                break
+            if isinstance(a, (ast.ListComp, ast.SetComp, ast.DictComp,
+                              ast.GeneratorExp)):
+                for g in a.generators:
+                    if name_node.id in names_in(g.target):
+                        return g
+        return None
+
+    def own(self, e):
+        if isinstance(e, ast.Name):
+            g = self._comp_binding(e)
+            if g is not None:
+                return self._elem(self.own(g.iter))
+            key = (e.id, id(e))
+            if key in self.busy:
+                return None
+            self.busy.add(key)
+            try:
+                vals = []
+                for d in self.reaching(e.id, e):
+                    if d is None:
+                        vals.append(0 if e.id in self.params else None)
+                        continue
+                    n, v, how = d
+                    if how == "is":
+                        vals.append(self.own(v))
+                    elif how in ("elem", "part"):
+                        vals.append(self._elem(self.own(v)))
+                    elif how == "aug":
+                        # x += ...: the same object for mutable values
+                        vals.append(self.own_at(e.id, n))
+                    else:
+                        vals.append(None)
+                return self._low(vals)
+            finally:
+                self.busy.discard(key)
+        if isinstance(e, ast.Constant):
+            return None
+        if isinstance(e, (ast.Dict, ast.List, ast.Set, ast.Tuple)):
+            parts = []
+            if isinstance(e, ast.Dict):
+                for k_, v_ in zip(e.keys, e.values):
+                    # {**other}: a shallow copy of other
+                    parts.append(self._elem(self.own(v_)) if k_ is None
+                                 else self.own(v_))
+            else:
+                for v_ in e.elts:
+                    parts.append(self._elem(self.own(v_.value)) if isinstance(
+                        v_, ast.Starred) else self.own(v_))
+            lo = self._low(parts)
+            return None if lo is None else min(lo + 1, _INF)
+        if isinstance(e, (ast.ListComp, ast.SetComp, ast.GeneratorExp)):
+            lo = self.own(e.elt)
+            return None if lo is None else min(lo + 1, _INF)
+        if isinstance(e, ast.DictComp):
+            lo = self.own(e.value)
+            return None if lo is None else min(lo + 1, _INF)
+        if isinstance(e, ast.IfExp):
+            return self._low([self.own(e.body), self.own(e.orelse)])
+        if isinstance(e, ast.BoolOp):
+            return self._low([self.own(v) for v in e.values])
+        if isinstance(e, ast.NamedExpr):
+            return self.own(e.value)
+        if isinstance(e, ast.Starred):
+            return self.own(e.value)
+        if isinstance(e, ast.Subscript):
+            return self._elem(self.own(e.value))
+        if isinstance(e, ast.Attribute):
+            if self.own(e.value) is None:
+                return None
+            if e.attr in ("T", "flat", "real", "imag", "base"):
+                return self.own(e.value)
+            # shape, dtype, size, ...: nothing of the caller's containers
+            return None
+        if isinstance(e, ast.Call):
+            fn = dotted(e.func) or ""
+            args = list(e.args) + [k.value for k in e.keywords]
+            if isinstance(e.func, ast.Attribute):
+                recv = self.own(e.func.value)
+                if recv is not None:
+                    a = e.func.attr
+                    if a in _ELEMENT:
+                        return self._elem(recv)
+                    if a in _VIEWS or a in _ALIAS_METHODS:
+                        return recv
+                    if a == "copy":
+                        return max(recv, 1)
+                    if a in ("astype", "tolist", "encode", "decode",
+                             "format", "strip", "split", "join", "lower",
+                             "upper", "replace", "resolve", "item", "sum",
+                             "min", "max", "mean", "flatten", "tobytes",
+                             "startswith", "endswith", "count", "index",
+                             "with_suffix", "exists", "is_dir", "as_posix"):
+                        return None
+                    return "?"
+                elif not (isinstance(e.func.value, ast.Name)
+                          and e.func.value.id in self.modules | {"self"}):
+                    # a method of an object that is not the caller's (HDF5
+                    # group, path, ...): the result belongs to that object
+                    return None
+            if fn in _DEEP_FUNCS:
+                if fn in ("np.array", "numpy.array") and any(
+                        k.arg == "copy" for k in e.keywords):
+                    return self._low([self.own(a) for a in args[:1]])
+                return None
+            if fn in _SHALLOW_FUNCS:
+                k = self._low([self.own(a) for a in args[:1]])
+                return None if k is None else (
+                    "?" if k == "?" else max(k, 1))
+            if fn in _ALIAS_FUNCS:
+                got = [self.own(a) for a in args]
+                if "?" in got:
+                    return "?"
+                return self._low(got)
+            got = [self.own(a) for a in args]
+            if all(g is None for g in got):
+                return None
+            if fn in ("len", "str", "int", "float", "bool", "repr", "bytes",
+                      "isinstance", "hasattr", "type", "tuple", "max", "min",
+                      "sum", "any", "all", "range", "hash", "id", "abs",
+                      "round", "np.prod", "np.sum", "np.nanmin", "np.nanmax",
+                      "np.nanmean", "np.issubdtype", "np.dtype", "np.zeros",
+                      "np.ones", "np.empty", "np.full", "np.arange",
+                      "np.zeros_like", "np.concatenate", "np.stack",
+                      "np.hstack", "np.vstack", "pathlib.Path", "Path",
+                      "json.dumps", "np.isnan", "np.any", "np.all",
+                      "np.rec.array", "np.rec.fromarrays"):
+                return None
+            return "?"
+        if isinstance(e, (ast.BinOp, ast.UnaryOp, ast.Compare, ast.JoinedStr,
+                          ast.Lambda, ast.FormattedValue)):
+            return None
+        return "?"
+
+    def own_at(self, name, stmt):
+        """ownership of `name` as it arrives at `stmt`"""
+        probe = ast.Name(id=name, ctx=ast.Load())
+        probe.parent = stmt
+        return self.own(probe)
+
+    @staticmethod
+    def _low(vals):
+        """lowest ownership; "?" (not classified) dominates"""
+        if any(v == "?" for v in vals):
+            return "?"
+        vals = [v for v in vals if v is not None]
+        return min(vals) if vals else None
+
+    @staticmethod
+    def _elem(k):
+        if k is None or k == "?":
+            return k
+        return max(k - 1, 0)
+
+    # -- mutation sites
+    def sites(self):
+        """(node, mutated expression, text) of every in-place change"""
+        out = []
+        for n in walk(self.f):
+            tg = []
+            if isinstance(n, ast.Assign):
+                tg = list(n.targets)
+            elif isinstance(n, ast.AugAssign):
+                tg = [n.target]
+            elif isinstance(n, ast.Delete):
+                tg = list(n.targets)
+            for t in tg:
+                for t_ in (t.elts if isinstance(t, (ast.Tuple, ast.List))
+                           else [t]):
+                    if isinstance(t_, (ast.Subscript, ast.Attribute)):
+                        out.append((n, t_.value, short(t_, 50)))
+            if isinstance(n, ast.Call) and isinstance(n.func, ast.Attribute) \
+                    and n.func.attr in _MUTATORS:
+                out.append((n, n.func.value, short(n, 50)))
+        return out
+
+
+def _caller_data_changes(repo, func, data_params, depth=0):
+    """in-place changes of objects the caller handed in: (text, why)"""
+    ow = _Ownership(func, data_params)
+    bad = []
+    seen = 0
+    for n, base, text in ow.sites():
+        if isinstance(base, ast.Name) and base.id == "self" or (
+                dotted(base) or "").startswith("self."):
+            continue
+        k = ow.own(base)
+        if k is None:
+            continue
+        if k == "?":
+            raise AnalysisError(
+                f"{func.name}: `{text}` changes an object whose relation to "
+                f"the arguments is not classified")
+        seen += 1
+        if k == 0:
+            bad.append((n, text, f"`{short(base, 40)}` is (part of) the "
+                        f"caller's object"))
+    # data handed on to other writer methods
+    cls = func.parent if isinstance(getattr(func, "parent", None),
+                                    ast.ClassDef) else None
+    for c in walk(func):
+        if not (isinstance(c, ast.Call) and isinstance(c.func, ast.Attribute)
+                and isinstance(c.func.value, ast.Name)
+                and c.func.value.id == "self" and cls is not None):
+            continue
+        cal = [d for d in cls.body if isinstance(d, ast.FunctionDef)
+               and d.name == c.func.attr]
+        if len(cal) != 1 or cal[0].name == func.name:
+            continue
+        names = [a.arg for a in cal[0].args.args][1:]
+        handed = []
+        for i, a in enumerate(c.args):
+            if isinstance(a, ast.Starred):
+                continue
+            if i < len(names) and ow.own(a) in (0, "?"):
+                handed.append(names[i])
+        for kw in c.keywords:
+            if kw.arg in names and ow.own(kw.value) in (0, "?"):
+                handed.append(kw.arg)
+        if handed:
+            if depth >= 5:
+                raise AnalysisError(f"{func.name}: arguments handed on "
+                                    f"deeper than five calls")
+            sub, s2 = _caller_data_changes(
+                repo, _deref_aliases(expand_private_calls(repo, WR, cal[0])),
+                handed, depth + 1)
+            seen += s2
+            bad += [(c, f"{cal[0].name}: {t}", w) for _, t, w in sub]
+    return bad, seen
+
+
+def r1c(ctx, repo):
+    """What a `store_*` call writes is determined by its arguments, and the
+    call leaves them as they were: every in-place change (item / attribute
+    assignment, del, pop / setdefault / update / append …) of an object that
+    is reached from a parameter is made on a private copy that is deep
+    enough for the level that is changed.  Otherwise the next writer that is
+    given the same object stores something the caller never wrote."""
+    cls = repo.cls(WR, "RTDCWriter")
+    meths = [d for d in cls.body if isinstance(d, ast.FunctionDef)
+             and d.name.startswith("store_")]
+    if not meths:
+        raise AnalysisError("RTDCWriter: no store_* method")
+    for m in meths:
+        f = _deref_aliases(expand_private_calls(repo, WR, m))
+        params = [a.arg for a in f.args.args[1:] + f.args.kwonlyargs]
+        bad, seen = _caller_data_changes(repo, f, params)
+        ctx.ob("R1.C", not bad,
+               f"{m.name}: {seen} in-place change(s) of argument-derived "
+               f"objects, all on private copies" if not bad else
+               f"{m.name}: `{bad[0][1]}` changes the object the caller "
+               f"passed in ({bad[0][2]}; a shallow copy shares its nested "
+               f"containers): the next call that is given the same object "
+               f"writes what this call left in it",
+               node=bad[0][0] if bad else f,
+               label=f"{m.name} leaves its arguments unchanged",
+               nontrivial=bool(seen or bad))
+
+
+# ----------------------------------------------------------------------
 
 def run(ctx):
     repo = ctx.repo
@@ -3667,6 +4048,9 @@ def run(ctx):
              "depends on the stored value)", minimum=2)
     ctx.rule("R1.B", "RTDCBase.__getitem__ serves stored features before "
              "cached ancillary / basin data", minimum=2)
+    ctx.rule("R1.C", "store_* methods change argument-derived objects only "
+             "through private copies deep enough for the changed level",
+             minimum=5)
     wn = wfunc(repo, WR, "RTDCWriter.write_ndarray")
     fr = find_frame(wn)
 
@@ -3714,6 +4098,7 @@ def run(ctx):
     r19(ctx, repo)
     r1a(ctx, repo)
     r1b(ctx, repo)
+    r1c(ctx, repo)
 
 
 
@@ -4342,6 +4727,15 @@ MUTANTS = [
       "            else:\n"
       "                del events[feat]\n",
       "            del events[feat]\n"), "R1.8"),
+    # round 7: the caller's metadata dictionary
+    ("metadata copied one level deep only", WR,
+     ("        meta = copy.deepcopy(meta)\n",
+      "        meta = copy.copy(meta)\n"), "R1.C"),
+    ("metadata sections edited in the caller's dictionary", WR,
+     ("        meta = copy.deepcopy(meta)\n", ""), "R1.C"),
+    ("metadata copied with dict()", WR,
+     ("        meta = copy.deepcopy(meta)\n",
+      "        meta = dict(meta)\n"), "R1.C"),
 ]
 
 #: apply only to the tree with the repairs of F01 in place (the guarded
@@ -4363,6 +4757,20 @@ MUTANTS_AFTER_FIX = [
       '                feat0 = feat0[sorted(feat0.keys())[0]]\n', ""),
      "R1.6"),
 ]
+
+def _metadata_copy_renamed(src):
+    """store_metadata works on `md`, a deep copy of the parameter"""
+    a = src.index("    def store_metadata(self, meta):")
+    b = src.index("    def store_table(", a)
+    body = src[a:b]
+    c = body.index("        meta = copy.deepcopy(meta)\n")
+    head, tail = body[:c], body[c:]
+    tail = tail.replace("        meta = copy.deepcopy(meta)\n",
+                        "        md = copy.deepcopy(meta)\n", 1)
+    tail = tail.replace("meta.", "md.").replace("meta[", "md[").replace(
+        "in meta:", "in md:")
+    return src[:a] + head + tail + src[b:]
+
 
 TWINS = [
     ("tile stop written as (ii + 1) * chunk", WR,
@@ -4473,6 +4881,17 @@ TWINS = [
      _exit_body_in_helper),
     ("metadata attributes produced by a module-level generator", WR,
      _metadata_by_generator),
+    # round 7
+    ("metadata copied section by section", WR,
+     ("        meta = copy.deepcopy(meta)\n",
+      "        meta = {sec: dict(meta[sec]) for sec in meta}\n")),
+    ("software version stored through a local for the setup section", WR,
+     ('        meta.setdefault("setup", {})["software version"] = '
+      'new_version\n',
+      '        setup = meta.setdefault("setup", {})\n'
+      '        setup["software version"] = new_version\n')),
+    ("private metadata copy under its own name", WR,
+     _metadata_copy_renamed),
 ]
 
 # mutants that re-introduce the repaired defects (apply to the fixed tree)
